@@ -201,7 +201,7 @@ func runC09(cx *lib.Ctx) {
 		res.Fail(lib.Failure{Kind: "corr", Key: "rules-dump", Desc: "model rejected RULES: " + a})
 		return
 	}
-	for _, s := range []string{"a = 1\n# done  ", "a=1 # trailing note \t ", "a = 1\n// done\t", "# only a comment ", "a = 1  ", "a = 1\n  ", "a = 1 /* c */  "} {
+	for _, s := range []string{"a = <<EOT\nhello\nEOT  \nb = 1\n", "a = <<-EOT\n  hello\n    EOT\t\nb = 1\n", "a = <<EOT\r\nhello\r\nEOT \r\n", "a = 1\n# done  ", "a=1 # trailing note \t ", "a = 1\n// done\t", "# only a comment ", "a = 1  ", "a = 1\n  ", "a = 1 /* c */  "} {
 		nt := c09Oracle(cx, []byte(s), "corpus")
 		c09Corr(cx, []byte(s))
 		res.Case(s, nt)
@@ -331,7 +331,8 @@ func withHeredocs(r *lib.Rand, src string) string {
 			sb.WriteString(lines[r.Intn(len(lines))])
 			sb.WriteString("\n")
 		}
-		sb.WriteString(indent + "EOT\n")
+		// the closing marker's line may carry blanks after the marker: the scanner folds them into the marker token
+		sb.WriteString(indent + "EOT" + r.Pick([]string{"", "", "", " ", "  ", "\t", " \t "}) + "\n")
 	}
 	if r.Chance(1, 2) {
 		sb.WriteString("blk {\n  inner = <<EOT\n" + lines[r.Intn(len(lines))] + "\nEOT\n}\n")
